@@ -288,6 +288,20 @@ func RunC10(run *vk.Run) {
 				} else {
 					run.Infra(cerr)
 				}
+				// allowed to overwrite AND told to keep going: the permission to overwrite still holds
+				if b, cerr := a.Clone(); cerr == nil {
+					berr := b.Exec(&Tap{}, "rotate", "--timestamp", ts(at.Add(time.Hour)), "--overwrite", "--keep_going")
+					if berr != nil {
+						fs = append(fs, "recovery")
+						run.Violation(keyOf("recovery-fails:overwrite+keep_going"), fmt.Sprintf("fault-free rotation with --overwrite --keep_going after a rotation with %s at call %d (%s) on %v fails: %v", jb.mode, jb.i, calls[jb.i-1], combo, berr),
+							map[string]any{"combo": combo.String(), "prior_rotations": nrot, "mode": jb.mode, "call_index": jb.i, "call": calls[jb.i-1]})
+					} else if uerr := Usable(b, roots, at.Add(time.Hour)); uerr != nil {
+						fs = append(fs, "recovery")
+						run.Violation(keyOf("recovery-unusable:overwrite+keep_going"), fmt.Sprintf("after the recovery rotation with --overwrite --keep_going following %s at call %d (%s) on %v: %v", jb.mode, jb.i, calls[jb.i-1], combo, uerr),
+							map[string]any{"combo": combo.String(), "call": calls[jb.i-1]})
+					}
+					b.Close()
+				}
 				// a later fault-free rotation that may overwrite leftovers must succeed
 				t2 := &Tap{}
 				rerr := a.Exec(t2, "rotate", "--timestamp", ts(at.Add(time.Hour)), "--overwrite")
